@@ -46,6 +46,9 @@ def generate(rng, tier="quick"):
     for _ in range(rng.randint(2, 5)):
         seq = list(range(k))
         rng.shuffle(seq)
+        if k > 1 and rng.chance(0.4):
+            # only part of the multiset this time: a later roll-up may have nothing left where an earlier one had a flag
+            seq = seq[: rng.randint(1, k - 1)]
         for _ in range(rng.weighted([(0, 5), (1, 3), (3, 2)])):
             seq.insert(rng.randint(0, len(seq)), rng.randrange(k))
         via = rng.weighted([("qartod_compare", 4), ("aggregate", 3), ("store", 3)])
